@@ -10,5 +10,9 @@ for m in spec/*.tla; do
   out=$(cd spec && java -DTLA-Library=/verif/spec:/verif/spec/gen -cp /opt/veriftools/tla/tla2tools.jar:/opt/veriftools/tla/CommunityModules-deps.jar tla2sany.SANY "$(basename $m)" 2>&1) || { echo "$out"; exit 1; }
   echo "$out" | grep -q "Semantic errors\|Parse Error\|Fatal" && { echo "$out"; exit 1; }
 done
+for m in spec/apalache/TrackerApa.tla spec/apalache/TrackerApaEq.tla; do
+  out=$(cd spec/apalache && java -DTLA-Library=/verif/spec/apalache/tlcstub:/verif/spec:/verif/spec/gen -cp /opt/veriftools/tla/tla2tools.jar:/opt/veriftools/tla/CommunityModules-deps.jar tla2sany.SANY "$(basename $m)" 2>&1) || { echo "$out"; exit 1; }
+  echo "$out" | grep -q "Semantic errors\|Parse Error\|Fatal" && { echo "$out"; exit 1; }
+done
 /venv/bin/python -m compileall -q harness >/dev/null
 echo setup ok
